@@ -112,6 +112,9 @@ type Scanner struct {
 
 	// inComment tells that the scanner is inside a user comment (# or ###).
 	inComment bool
+
+	// commentEnd is the index behind the block comment (###) closed last.
+	commentEnd bytes.Index
 }
 
 type context struct {
@@ -177,6 +180,9 @@ func (s *Scanner) Length() uint {
 				// The text ends inside a user comment: the comment belongs to the
 				// schema exactly as if a line break followed it.
 				length = uint(s.dataSize)
+			} else if uint(s.commentEnd) > length {
+				// The same for a block comment that closes on the last bytes.
+				length = uint(s.commentEnd)
 			}
 			break
 		}
@@ -1303,6 +1309,7 @@ func stateMultiLineComment(s *Scanner, c byte) state {
 			s.index++ // skip third #
 			s.step = s.returnToStep.Pop()
 			s.inComment = false
+			s.commentEnd = s.index
 		}
 	}
 	return scanContinue
